@@ -46,6 +46,11 @@ def fixed_models(ui):
                 ui.Model(dt=dt, state={mass, z, v, a}, control={thrust},
                          state_model={mass: mass, z: z + dt * v, v: v + dt * a, a: -9.81 * mass + thrust}),
                 {thrust: 1.0}, {"alt": {"h": z}, "acc": {"g": a, "m": mass}}, {"alt": {"h": 1.0}, "acc": {"g": 0.5, "m": 2.0}}, {}))
+    out.append(("mass-z-v-a with a two-reading sensor in which large correlated variances cancel",
+                ui.Model(dt=dt, state={mass, z, v, a}, control={thrust},
+                         state_model={mass: mass, z: z + dt * v, v: v + dt * a, a: -9.81 * mass + thrust}),
+                {thrust: 1.0}, {"alt": {"h": z}, "weight": {"w1": a + 9.81 * mass, "w2": 0.7 * a + 6.867 * mass}},
+                {"alt": {"h": 1.0}, "weight": {"w1": 1.0, "w2": 1.0}}, {}))
     x, y, vx, vy, ax = S("x"), S("y"), S("vx"), S("vy"), S("ax")
     out.append(("constant velocity 2d, exactly correlated copy state",
                 ui.Model(dt=dt, state={x, y, vx, vy}, control={ax},
@@ -93,7 +98,7 @@ def run_history(mods, job):
     else:
         # second family: unit noises under large covariances.  Updates then cancel heavily and their outputs may only be valid in
         # the lenient measure; the "never refused" claim still applies to every input that is valid in the strict measure
-        mag = float(10.0 ** rng.integers(4, 9))
+        mag = float(10.0 ** rng.integers(4, job.get("mag_hi", 9 if job.get("seed", 0) % 2 else 12)))      # (every other history goes up to 1e11)
     ekf = python.compile_ekf(model, pn, sm, sn, cm, config={"common_subexpression_elimination": False, "innovation_filtering": job.get("k"), "max_dt_sec": max_dt})
     state = ekf.State(**{str(s): float(rng.normal()) for s in ekf.arglist_state})
     # start from a random symmetric PSD covariance (possibly singular)
@@ -103,11 +108,18 @@ def run_history(mods, job):
     events = []
     keys = sorted(ekf.sensor_models)
     ref = 0.0
+    if job.get("diag_mass"):
+        # one poorly known state next to well known ones, from an exactly diagonal start: predict / update alternately
+        mag = float(job["diag_mass"])          # (the regime bound below is relative to this variance)
+        state = ekf.State()
+        cov = ekf.Covariance(mass=float(job["diag_mass"]))
     for step in range(job["steps"]):
         P_in = cov.data.copy()
         v_in = valid_cov(P_in)          # strict: relative to its own magnitude -- only such inputs carry the "never refused" claim
         ref = max(ref, float(np.max(np.abs(P_in))))
         kind = "predict" if (not keys or rng.random() < 0.6) else "update"
+        if job.get("diag_mass"):
+            kind = "predict" if step % 2 == 0 else "update"
         ev = {"kind": kind, "valid_in": v_in, "model": name, "step": step}
         try:
             if kind == "predict":
@@ -116,6 +128,8 @@ def run_history(mods, job):
                 state, cov = ekf.process_model(dt, state, cov, ctl)
             else:
                 key = keys[int(rng.integers(len(keys)))]
+                if job.get("diag_mass"):
+                    key = "weight"
                 smod = ekf.sensor_models[key]
                 pred = smod.model(state)
                 rd = ekf.make_reading(key, data=pred.data + rng.normal(size=pred.data.shape) * 0.5 * math.sqrt(mag))
@@ -207,11 +221,11 @@ def run(ctx):
     jobs = []
     nh = 9 if quick else 90
     steps = 120 if quick else 200
-    for m in range(4):
+    for m in range(5):
         for i in range(nh):
             jobs.append({"model": m, "seed": ctx.seed * 100000 + m * 1000 + i, "steps": steps, "k": [None, 5.0][i % 2], "max_dt": [0.1, 0.02, 0.5][i % 3],
                          "scale_noise": i % 3 != 2})
-    for m in range(4):
+    for m in range(5):
         for i in range(16 if quick else 60):
             jobs.append({"model": m, "seed": ctx.seed * 100000 + 70000 + m * 1000 + i, "steps": steps, "k": None, "max_dt": [0.1, 0.5][i % 2],
                          "exact_sensors": True, "scale_noise": True})
@@ -219,6 +233,13 @@ def run(ctx):
         d = Definition(s["def"])
         if d.sensors:
             jobs.append({"def": s["def"], "seed": ctx.seed * 100000 + 50000 + i, "steps": steps // 2, "k": None})
+    # regression corpus: the histories on which the repaired defects D14 and D15 were found (known_findings.json, "fixed:")
+    jobs.append({"model": 0, "seed": 56, "steps": 200, "k": None, "max_dt": 0.5, "scale_noise": False, "mag_hi": 9})
+    jobs.append({"model": 0, "seed": 100062, "steps": 200, "k": None, "max_dt": 0.5, "scale_noise": False, "mag_hi": 9})
+    for mv in (1e8, 1e10, 1e11):
+        jobs.append({"model": 1, "seed": 7, "steps": 8, "k": None, "max_dt": 0.1, "scale_noise": False, "mag_hi": 9, "diag_mass": mv})
+    for sd in (70006, 270013, 370011, 570005):
+        jobs.append({"model": 0, "seed": sd, "steps": 120, "k": None, "max_dt": [0.1, 0.5][sd % 2], "exact_sensors": True, "scale_noise": True})
     ctx.log("%d randomised histories of up to %d steps" % (len(jobs), steps))
     res = workers.run_tasks([("props.c09", "run_history", (j,), 900) for j in jobs], procs=ctx.cores)
     traces, keep = [], []
